@@ -62,6 +62,13 @@ func TestVerifC03(t *testing.T) {
 			if !r.Thorough() {
 				cfgs = []cfgT{cfgs[0], cfgs[1], cfgs[2+int(r.Seed+int64(caseNo))%3]}
 			}
+			// seeded configurations: start times off the loop grid, arbitrary start numbers
+			rng := r.Rand(int64(3000 + caseNo))
+			for k := 0; k < r.Pick(1, 12); k++ {
+				st := []int64{1 + rng.Int63n(100_000), 1_000_000 + rng.Int63n(1_000_000_000), 1_600_000_000 + rng.Int63n(200_000_000)}[rng.Intn(3)]
+				sn := []int{-1, rng.Intn(10), 10 + rng.Intn(100_000)}[rng.Intn(3)]
+				cfgs = append(cfgs, cfgT{[]string{"number", "time", "tlnr"}[rng.Intn(3)], sn, st})
+			}
 			for _, c := range cfgs {
 				var parts []string
 				switch c.mode {
@@ -88,6 +95,9 @@ func TestVerifC03(t *testing.T) {
 				wraps := []int64{7, 100, 10_000, 1_000_000}
 				if r.Thorough() {
 					wraps = append(wraps, 13, 999, 123_457, 7_654_321)
+				}
+				for k := 0; k < r.Pick(1, 12); k++ { // seeded wraps
+					wraps = append(wraps, 3+rng.Int63n(3_000_000))
 				}
 				for _, wr := range wraps {
 					for n := wr*N - 2; n < wr*N+N; n++ {
